@@ -167,6 +167,11 @@ def run_one(I: Interp, reg: Registry, ci: ContractInfo, f, known_excludes=()):
             vals = dict(vals)
             vals.update(env.vars)
             vals['flow'] = flow
+        elif ci.kind == 'function' and getattr(ci.pycls, 'tail', None):
+            # a tail contract: the statements after the named loop, to the end of the function, from the state the inputs describe
+            result, env = I.run_tail(f, ci.pycls.tail, call_kwargs)
+            vals = dict(vals)
+            vals.update(env.vars)
         elif ci.kind == 'function':
             try:
                 result = I.call_function(f, [], call_kwargs)
@@ -517,12 +522,17 @@ def native_step(ci: ContractInfo, vals: dict):
     fn = inspect.unwrap(fn)
     tree = ast.parse(textwrap.dedent(inspect.getsource(fn)))
     loop = None
+    tail = getattr(ci.pycls, 'tail', None)
+    header = tail or ci.pycls.step
     for n in ast.walk(tree):
-        if isinstance(n, (ast.For, ast.While)) and ast.unparse(n).split('\n')[0].rstrip(':').strip().startswith(ci.pycls.step):
+        if isinstance(n, (ast.For, ast.While)) and ast.unparse(n).split('\n')[0].rstrip(':').strip().startswith(header):
             loop = n
             break
     if loop is None:
-        raise HarnessError(f'loop {ci.pycls.step!r} not found in {ci.target}')
+        raise HarnessError(f'loop {header!r} not found in {ci.target}')
+    fnode = next((n for n in ast.walk(tree) if isinstance(n, ast.FunctionDef)), None)
+    if tail and (fnode is None or loop not in fnode.body):
+        raise HarnessError(f'tail contract: the loop {header!r} is not a statement at the top level of {ci.target}')
 
     class Ret(ast.NodeTransformer):
         def visit_FunctionDef(self, node):
@@ -534,7 +544,7 @@ def native_step(ci: ContractInfo, vals: dict):
         def visit_Return(self, node):
             val = node.value if node.value is not None else ast.Constant(None)
             return ast.copy_location(ast.Return(ast.Tuple([ast.Constant('return'), val, ast.Call(ast.Name('locals', ast.Load()), [], [])], ast.Load())), node)
-    body = [Ret().visit(st) for st in loop.body]
+    body = [Ret().visit(st) for st in (loop.body if not tail else fnode.body[fnode.body.index(loop) + 1:])]
     names = [k for k in vals if not k.startswith('_') and k.isidentifier()]
     end = lambda flow: ast.Return(ast.Tuple([ast.Constant(flow), ast.Constant(None), ast.Call(ast.Name('locals', ast.Load()), [], [])], ast.Load()))
     wrapper = ast.For(target=ast.Name('__once__', ast.Store()), iter=ast.Tuple([ast.Constant(0)], ast.Load()), body=body, orelse=[end('next')])
@@ -564,7 +574,7 @@ def native_step(ci: ContractInfo, vals: dict):
 
 
 def call_real(ci: ContractInfo, vals: dict):
-    if getattr(ci.pycls, 'step', None):
+    if getattr(ci.pycls, 'step', None) or getattr(ci.pycls, 'tail', None):
         return native_step(ci, vals)
     owner, name, obj = resolve_target(ci.target)
     kwargs = {k: v for k, v in vals.items() if not k.startswith('_')}
